@@ -271,7 +271,7 @@ func cmdCheck(args []string) int {
 				canaryOK++ // schedule/stub dependent: detection by the solver is what is checked
 				continue
 			}
-			rid := fmt.Sprintf("canary-%d-%d", len(batch[gr]), ci)
+			rid := fmt.Sprintf("canary-%s-%d-%d", sanitize(gr.tmp), len(batch[gr]), ci)
 			batch[gr] = append(batch[gr], replayItem{ID: rid, Entry: cj.entry, Witness: nativeWitness(cj.cfg.Params, v.Nondets, v.Model, true)})
 			pending[rid] = pend{kind: "canary", j: cj}
 		}
@@ -370,6 +370,9 @@ func cmdCheck(args []string) int {
 	for rid, p := range pending {
 		r, ok := results[rid]
 		if !ok {
+			if p.kind == "canary" {
+				engineFail = append(engineFail, fmt.Sprintf("canary of %s was not replayed natively (no result)", p.j.entry))
+			}
 			continue
 		}
 		if p.kind == "canary" {
